@@ -95,6 +95,8 @@ Model generate(sim::Rng& rng, const GenOptions& opt);
 
 // Text NL of a model.  Also returns .col/.row contents when names exist.
 std::string emit_nl_text(const Model& m);
+// text (binary=false) or binary little-endian NL file of the same model
+std::string emit_nl(const Model& m, bool binary);
 std::string emit_col(const Model& m);
 std::string emit_row(const Model& m);
 
